@@ -168,7 +168,7 @@ impl VmStateIterator {
             memory: self.chiplets.get_mem_state_at(ctx, self.clk),
         });
 
-        self.clk -= 1;
+        self.clk = self.clk.saturating_sub(1);
 
         result
     }
